@@ -6,6 +6,7 @@
 package xstate
 
 import (
+	"crypto/sha256"
 	"fmt"
 	"os"
 	"strings"
@@ -46,7 +47,14 @@ type node struct {
 // Search explores from every prefix in roots (nil = the empty history) to maxDepth events in total.
 func Search(c *ev.Check, sp Spec, roots [][]string, maxDepth int) Stats {
 	var st Stats
-	seen := map[string]bool{}
+	// (canonical dumps are long; the visited set keeps 128 bits of their SHA-256 - a collision would merge two states
+	// silently, at 10^7 states its probability is below 10^-24)
+	seen := map[[16]byte]bool{}
+	key16 := func(s string) (k [16]byte) {
+		h := sha256.Sum256([]byte(s))
+		copy(k[:], h[:16])
+		return
+	}
 	var frontier []node
 	if roots == nil {
 		roots = [][]string{nil}
@@ -73,7 +81,7 @@ func Search(c *ev.Check, sp Spec, roots [][]string, maxDepth int) Stats {
 			closeSys(sys)
 			continue
 		}
-		k := sp.Canon(sys)
+		k := key16(sp.Canon(sys))
 		closeSys(sys)
 		if !seen[k] {
 			seen[k] = true
@@ -132,7 +140,7 @@ func Search(c *ev.Check, sp Spec, roots [][]string, maxDepth int) Stats {
 					closeSys(sys)
 					continue // do not expand beyond a violating state
 				}
-				k := sp.Canon(sys)
+				k := key16(sp.Canon(sys))
 				closeSys(sys)
 				if !seen[k] {
 					seen[k] = true
